@@ -5,9 +5,12 @@
 (* Taken from the Unicode character database (UnicodeData.txt,             *)
 (* PropList.txt), not from the implementation.  Outside the table the      *)
 (* models prescribe nothing (CaseKnown / ClassKnown are FALSE).            *)
-(* U+00DF (sharp s) is in the class table but deliberately not in the case *)
-(* table: its full upper-case mapping is two characters and R7RS allows    *)
-(* either treatment.                                                       *)
+(* U+00DF (sharp s), U+0149, U+01F0 and U+FB01 have a FULL upper-case      *)
+(* mapping of several characters and no SIMPLE one.  The string operations *)
+(* may use either (R7RS allows a length change), so they are not in the    *)
+(* case table used for strings; the character operations return one        *)
+(* character and use the simple mapping, under which these four are their  *)
+(* own upper case, lower case and folding (CharCaseKnown).                 *)
 (***************************************************************************)
 EXTENDS Naturals
 
@@ -17,7 +20,10 @@ EXTENDS Naturals
 PaletteCase  == {233, 201, 955, 923, 8364, 20013, 65535, 128512, 1114111, 160, 8195, 12288, 1635}
 PaletteClass == PaletteCase \cup {223}
 
+\* no simple case mapping, a multi-character full upper-case mapping: sharp s, n-apostrophe, j-caron, fi ligature
+MultiUpper == {223, 329, 496, 64257}
 CaseKnown(c)  == c < 128 \/ c \in PaletteCase
+CharCaseKnown(c) == CaseKnown(c) \/ c \in MultiUpper      \* for char-upcase / char-downcase / char-foldcase
 ClassKnown(c) == c < 128 \/ c \in PaletteClass
 
 Upcase(c) ==
